@@ -288,6 +288,28 @@ def run_direct(case, ctx):
         if not ctx.samples:
             ctx.sample({'kind': 'direct', 'roadm': r.uid, 'from': rp.from_degree, 'to': rp.to_degree,
                         'path_type': rp.path_type, 'carriers': carriers[:4], 'pin': pin[:4], 'pout': pout[:4]})
+        if len(carriers) >= 3 and rng.random() < 0.6 and not ctx.violations:
+            # history: the SAME ROADM object is crossed again, same degrees, by a spectrum with the same number of
+            # channels and the same first and last carrier whose inner carriers sit elsewhere (mirrored about the
+            # centre), i.e. in other frequency ranges of the impairment profile
+            cs = sorted(carriers, key=lambda c: c['frequency'])
+            f0, f1 = cs[0]['frequency'], cs[-1]['frequency']
+            inner = [dict(c, frequency=f0 + f1 - c['frequency']) for c in cs[1:-1]]
+            cs2 = sorted([cs[0]] + inner + [cs[-1]], key=lambda c: c['frequency'])
+            if all(b['frequency'] - a['frequency'] >= (a['slot_width'] + b['slot_width']) / 2 for a, b in zip(cs2[:-1], cs2[1:])):
+                for c in cs2:
+                    t, _ = cfg.target_dbm(r.uid, rp.to_degree, c['baud_rate'], c['slot_width'])
+                    try:
+                        ml = cfg.maxloss(r.uid, rp.from_degree, rp.to_degree, nt, c['frequency'])
+                    except LookupError:
+                        ml = 0
+                    c['tx_power_dbm'] = t + c['delta_pdb'] + ml + G.pick(rng, [-8, -3, -0.5, 0, 0.5, 4])
+                si2 = make_si(cs2)
+                si2.delta_pdb_per_channel = np.array([c['delta_pdb'] for c in cs2])
+                attach.reset()
+                r(si2, degree=rp.to_degree, from_degree=rp.from_degree)
+                ctx.count('recrossings_of_one_roadm_object')
+                check_crossing(ctx, cfg, nt, attach.EVENTS[0], direct=True)
         if ctx.violations:
             ctx.dump.update({'equipment': ej, 'topology': tj})
             return
